@@ -831,7 +831,6 @@ func runCollapseNeedsNullness(rr *RuleRun) {
 	})
 }
 
-
 // assignedFromOrig: some assignment to o (definition or plain assignment) has a right-hand side that
 // reads the receiver's orig field.
 func assignedFromOrig(info *types.Info, root ast.Node, o, recv types.Object) bool {
